@@ -1146,6 +1146,7 @@ impl ThetaSketch {
     /// Verification hook: offer a chosen 63-bit hash value exactly as `update` does after
     /// hashing (screen against theta, then insert).
     pub fn verif_insert_hash(&mut self, hash: u64) {
+        self.table.verif_touch();
         if hash != 0 && hash < self.table.theta() {
             self.table.try_insert(hash);
         }
